@@ -19,9 +19,17 @@ How a polynomial identity is decided by evaluation
   Every table function's un-jitted `.py_func` is called ONCE with `oracles.series.Series.variable(40)`
   (exact truncated power series over fractions.Fraction; float literals are converted exactly;
   `-1/(e2-1.0)**3`-style closed forms are expanded by series inversion).  The call returns all
-  coefficients of every cell.  The multi-degree helpers are run the same way: their `.py_func` code
-  object is re-bound to a copy of the module globals in which `orderl2..7` are replaced by
-  namespaces holding the tables' `.py_func` (no repository state is modified).
+  coefficients of every cell.  The multi-degree helpers are run the same way through `_dejit`: the
+  `.py_func` code object is re-bound to a copy of its globals in which every numba Dispatcher reachable
+  as a bare name or as an attribute of a TidalPy module (tables, OTHER helpers, at any depth) is replaced,
+  recursively and lazily, by the interpreted twin of the callee (cached, cycle-safe; no repository state
+  is modified).  So a helper that delegates to another helper is still evaluated exactly.  If numba
+  nevertheless receives the Series (exception raised by numba typing/lowering, not by the table code), the
+  case is NOT a violation: it falls back to comparing the compiled helper at 8 eccentricities in (0, 0.6]
+  (array and scalar calls) with the exact series for every (l,p,q), key sets included, label
+  `lookup:numeric_fallback` (and `exhaustive` is then reported false).  Exceptions raised by the
+  interpreted table/helper code itself (KeyError from a dropped entry, ...) remain failures.
+  `C08_FORCE_NUMERIC_FALLBACK=1` forces that path (used to test it).
 
 Oracles
   exact      `oracles.hansen`: X^{n,m}_k from the eccentric-anomaly integral expanded as a Laurent
@@ -167,21 +175,78 @@ def _py(f):
     return getattr(f, 'py_func', f)
 
 
-_shim_cache = {}
+_dejit_cache = {}
 
 
-def _shimmed(helper):
-    """The helper's interpreted code bound to globals where orderl2..7 expose the tables' py_funcs."""
-    pf = _py(helper)
+def _is_dispatcher(x):
+    return callable(x) and hasattr(x, 'py_func') and type(x).__module__.split('.')[0] == 'numba'
+
+
+class _ModuleProxy:
+    """Attribute view of a repository module in which every numba Dispatcher (at any attribute depth, e.g.
+    `eccen_calc_orderl6.eccentricity_truncation_16_maxl_6`, `orderl5.eccentricity_funcs_trunc8`) is
+    replaced by its interpreted twin running under the same substitution."""
+
+    def __init__(self, mod):
+        object.__setattr__(self, '_mod', mod)
+
+    def __getattr__(self, name):
+        return _subst(getattr(object.__getattribute__(self, '_mod'), name))
+
+    def __repr__(self):
+        return '<dejit proxy of %r>' % (object.__getattribute__(self, '_mod'),)
+
+
+def _subst(v):
+    if _is_dispatcher(v):
+        return _dejit(v)
+    if isinstance(v, types.ModuleType) and v.__name__.split('.')[0] == 'TidalPy':
+        return _ModuleProxy(v)
+    return v
+
+
+def _dejit(fn):
+    """Interpreted twin of a jitted function: its `.py_func` code object re-bound to a copy of its globals in
+    which every reachable numba Dispatcher (bare imported name or attribute of a TidalPy module) is replaced,
+    recursively and lazily, by the twin of the callee - so a helper may call tables or OTHER helpers and an
+    exact Series argument never reaches numba.  Twins are cached per py_func (the cache entry is created
+    before the callee globals are resolved, which also terminates call cycles).  Repository module state is
+    not modified."""
+    pf = _py(fn)
     key = id(pf)
-    if key not in _shim_cache:
-        g = dict(pf.__globals__)
-        for l, mod in _mods()['order'].items():
-            ns = types.SimpleNamespace(**{k: _py(v) for k, v in vars(mod).items()
-                                          if k.startswith('eccentricity_funcs_trunc')})
-            g['orderl%d' % l] = ns
-        _shim_cache[key] = (pf, types.FunctionType(pf.__code__, g, pf.__name__))
-    return _shim_cache[key][1]
+    hit = _dejit_cache.get(key)
+    if hit is not None:
+        return hit[1]
+    holder = {}
+
+    def twin(*args, **kwargs):
+        f = holder.get('f')
+        if f is None:
+            g = {name: _subst(val) for name, val in pf.__globals__.items()}
+            f = holder['f'] = types.FunctionType(pf.__code__, g, pf.__name__, pf.__defaults__, pf.__closure__)
+            f.__kwdefaults__ = pf.__kwdefaults__
+        return f(*args, **kwargs)
+    twin.__name__ = getattr(pf, '__name__', 'twin')
+    _dejit_cache[key] = (pf, twin)
+    return twin
+
+
+def _numba_raised(exc):
+    """True when the exception comes out of numba's typing/lowering/dispatch machinery (a Series reached a
+    compiled function), False when the interpreted table/helper code itself raised (KeyError, ...)."""
+    import traceback
+    seen = set()
+    e = exc
+    while e is not None and id(e) not in seen:
+        seen.add(id(e))
+        if type(e).__module__.split('.')[0] in ('numba', 'llvmlite'):
+            return True
+        for fs in traceback.extract_tb(e.__traceback__):
+            fn = fs.filename.replace(os.sep, '/')
+            if '/numba/' in fn or '/llvmlite/' in fn:
+                return True
+        e = e.__cause__ or e.__context__
+    return False
 
 
 _VAR = Series.variable(SERIES_ORDER)
@@ -194,7 +259,7 @@ def _table_series(fn):
     key = id(pf)
     if key not in _series_cache:
         with repo_call('table.py_func(series)'):
-            raw = pf(_VAR)
+            raw = _dejit(fn)(_VAR)
         out = {}
         ident = {}
         for p in raw:
@@ -362,8 +427,18 @@ def _eval_lookup_py(case):
     c = Collector(labels=['lookup_py', 'lmax:%d' % lmax, 'N:%d' % N])
     with repo_call('eccentricity_functions_lookup[N][lmax]'):
         helper = m['mh'].eccentricity_functions_lookup[N][lmax]
-    with repo_call('helper.py_func(series)'):
-        raw = _shimmed(helper)(_VAR)
+    raw = None
+    if not os.environ.get('C08_FORCE_NUMERIC_FALLBACK'):
+        try:
+            with repo_call('helper.py_func(series)'):
+                raw = _dejit(helper)(_VAR)
+        except Exception as e:  # noqa
+            cause = getattr(e, 'exc', e)
+            if not _numba_raised(cause):
+                raise               # the interpreted table / helper code itself raised: a genuine failure
+            raw = None
+    if raw is None:
+        return _lookup_numeric_fallback(c, helper, N, lmax)
     levels = sorted(raw)
     c.check(levels == list(range(2, lmax + 1)), {'clause': 'lookup_levels', 'where': 'lookup_py'},
             'lookup[%d][%d] returned levels %r, expected 2..%d' % (N, lmax, levels, lmax))
@@ -410,7 +485,12 @@ def _int_poly(ex):
     return D, [int(ck * D) for ck in ex]
 
 
-def _reference(l, N, evals):
+def _direct_cells(l, N, keys):
+    """Reference cells built from the oracle alone (no interpreted table needed): k = 0 -> closed form."""
+    return [(p, q, (l - 2 * p + q) == 0, _int_poly(_exact(l, p, q)[:N + 1])) for (p, q) in sorted(keys)]
+
+
+def _reference(l, N, evals, cells=None):
     """{(p,q): [(ref float, tolerance, error scale) per e]}: exact rational evaluation at the binary value of e
     (integer arithmetic: e = a/b with b a power of two; int/int true division is correctly rounded)."""
     out = {}
@@ -423,7 +503,7 @@ def _reference(l, N, evals):
             pa.append(pa[-1] * a)
             pb.append(pb[-1] * b)
         pows.append((pa, pb))
-    for p, q, closed, ip in _cells(l, N):
+    for p, q, closed, ip in (_cells(l, N) if cells is None else cells):
         lst = []
         for x, (pa, pb) in zip(evals, pows):
             if closed:
@@ -462,13 +542,31 @@ def _to_plain(out, n):
     return res
 
 
-def _compare_level(c, l, N, got, evals, where):
-    ref = _reference(l, N, evals)
+def _compare_level(c, l, N, got, evals, where, direct=False):
+    """direct=False: reference cells/key set = the (exactly verified) interpreted table.
+    direct=True : reference from the oracle alone; key set: every absent (p,q) of the grid must vanish
+                  through e^N, every present key is compared (k = 0 as closed form, else truncated polynomial)."""
     sig = {'clause': 'compiled_value', 'where': where, 'l': l}
-    gk, rk = set(got), set(ref)
-    c.check(gk == rk, {'clause': 'compiled_keys', 'where': where, 'l': l},
-            'l=%d N=%d %s: compiled keys differ from interpreted table: missing %r extra %r'
-            % (l, N, where, sorted(rk - gk)[:6], sorted(gk - rk)[:6]))
+    if direct:
+        qmax = N // 2 + 2
+        okkeys = {k for k in got if 0 <= k[0] <= l}
+        ref = _reference(l, N, evals, _direct_cells(l, N, okkeys))
+        missing = []
+        for p in range(l + 1):
+            for q in range(-qmax, qmax + 1):
+                if (p, q) not in got and any(x != 0 for x in _exact(l, p, q)[:N + 1]):
+                    missing.append((p, q))
+        extra = sorted(set(got) - okkeys)
+        c.check(not missing and not extra, {'clause': 'compiled_keys', 'where': where, 'l': l},
+                'l=%d N=%d %s: cells missing although exact G^2 is non-zero through e^N: %r; keys outside p=0..l: %r'
+                % (l, N, where, missing[:8], extra[:6]))
+        gk = rk = okkeys
+    else:
+        ref = _reference(l, N, evals)
+        gk, rk = set(got), set(ref)
+        c.check(gk == rk, {'clause': 'compiled_keys', 'where': where, 'l': l},
+                'l=%d N=%d %s: compiled keys differ from interpreted table: missing %r extra %r'
+                % (l, N, where, sorted(rk - gk)[:6], sorted(gk - rk)[:6]))
     bad = []
     worst = 0.0
     for key in sorted(gk & rk):
@@ -507,6 +605,47 @@ def _call_compiled(fn, arg):
             except OSError:
                 pass
     raise HarnessError('numba cache I/O failed three times: %r' % (last,))
+
+
+FALLBACK_E = [0.03, 0.09, 0.17, 0.26, 0.34, 0.43, 0.52, 0.6]
+
+
+def _lookup_numeric_fallback(c, helper, N, lmax):
+    """Exact evaluation of the helper was impossible (numba refused the Series somewhere the generic
+    de-jitting could not reach): compare the COMPILED helper at 8 eccentricities in (0, 0.6], scalar and
+    array call, with the exact series for every (l,p,q) (oracle-only reference, compiled-value tolerance,
+    key sets included).  A truncation level off by one changes values by ~e^N x coefficient, i.e. >= 1e-9 x
+    scale at e = 0.6, N <= 22 - four orders above the tolerance."""
+    import numpy as np
+    c.label('lookup:numeric_fallback')
+    arr = np.asarray(FALLBACK_E, dtype=np.float64)
+    with repo_call('compiled eccentricity_functions_lookup[%d][%d]' % (N, lmax)):
+        out = _call_compiled(helper, arr)
+        levels = sorted(int(k) for k in out)
+        per = {int(k): _to_plain(out[k], len(FALLBACK_E)) for k in out}
+        scal = []
+        for x in FALLBACK_E:
+            o = _call_compiled(helper, float(x))
+            scal.append({int(k): _to_plain(o[k], 1) for k in o})
+    c.check(levels == list(range(2, lmax + 1)), {'clause': 'lookup_levels', 'where': 'lookup_numeric'},
+            'compiled lookup[%d][%d] returned levels %r, expected 2..%d' % (N, lmax, levels, lmax))
+    ncell = 0
+    for l in levels:
+        if not published(l, N):
+            continue
+        _compare_level(c, l, N, per[l], FALLBACK_E, 'lookup_numeric', direct=True)
+        ncell += len(per[l])
+        for x, o in zip(FALLBACK_E, scal):
+            if sorted(o) != levels or l not in o:
+                c.fail({'clause': 'lookup_levels', 'where': 'lookup_numeric'}, 'scalar call e=%r returned levels %r' % (x, sorted(o)))
+                continue
+            before = len(c.fails)
+            _compare_level(c, l, N, o[l], [x], 'lookup_numeric', direct=True)
+            if len(c.fails) > before:
+                break               # one report per level is enough
+    c.label('nl_numeric_cells=%d' % ncell)
+    c.nontrivial = ncell > 0
+    return c.result()
 
 
 def _arg(case):
@@ -683,7 +822,7 @@ def extra_coverage(tier, merged):
     n_tables = lab.get('table', 0)
     n_lookups = lab.get('lookup_py', 0)
     complete = (merged.get('fixed_cases', 0) == expected and n_tables == sum(1 for l in LS for N in NS if published(l, N))
-                and n_lookups == expected - n_tables - len(WITNESSES)
+                and n_lookups == expected - n_tables - len(WITNESSES) and not lab.get('lookup:numeric_fallback')
                 and not any('"exception"' in k for k in merged.get('fail_sig_counts', {})))
     return {'exhaustive': bool(complete),
             'explanation': ('exhaustive refers to the enumerated part: every published table (l,N) and every lookup helper '
